@@ -25,6 +25,35 @@
 #include "indent.h"
 #include "cppParser.h"
 
+#include <set>
+
+/**
+ * The trait queries below recurse through bases and members.  An (invalid)
+ * class that contains itself, directly or through other classes, would make
+ * them recurse forever; this guard makes the inner query answer "no" instead.
+ */
+namespace {
+  class TraitRecursionGuard {
+  public:
+    TraitRecursionGuard(std::set<const CPPStructType *> &active,
+                        const CPPStructType *type) :
+      _active(active), _type(type),
+      _entered(active.insert(type).second) {
+    }
+    ~TraitRecursionGuard() {
+      if (_entered) {
+        _active.erase(_type);
+      }
+    }
+    bool entered() const { return _entered; }
+
+  private:
+    std::set<const CPPStructType *> &_active;
+    const CPPStructType *_type;
+    bool _entered;
+  };
+}
+
 /**
  *
  */
@@ -597,6 +626,12 @@ is_const_default_constructible(const CPPStructType *type) {
  */
 bool CPPStructType::
 is_default_constructible(CPPVisibility min_vis) const {
+  static std::set<const CPPStructType *> active;
+  TraitRecursionGuard guard(active, this);
+  if (!guard.entered()) {
+    return false;
+  }
+
   // A base-class subobject (queried with V_protected) may well be abstract.
   if (min_vis <= V_public && is_abstract()) {
     return false;
@@ -688,6 +723,12 @@ is_default_constructible(CPPVisibility min_vis) const {
  */
 bool CPPStructType::
 is_copy_constructible(CPPVisibility min_vis) const {
+  static std::set<const CPPStructType *> active;
+  TraitRecursionGuard guard(active, this);
+  if (!guard.entered()) {
+    return false;
+  }
+
   // A base-class subobject (queried with V_protected) may well be abstract.
   if (min_vis <= V_public && is_abstract()) {
     return false;
@@ -778,6 +819,12 @@ is_copy_constructible(CPPVisibility min_vis) const {
  */
 bool CPPStructType::
 is_move_constructible(CPPVisibility min_vis) const {
+  static std::set<const CPPStructType *> active;
+  TraitRecursionGuard guard(active, this);
+  if (!guard.entered()) {
+    return false;
+  }
+
   CPPInstance *constructor = get_move_constructor();
   if (constructor != nullptr) {
     // It has a user-declared move constructor.
@@ -807,6 +854,12 @@ is_move_constructible(CPPVisibility min_vis) const {
  */
 bool CPPStructType::
 is_copy_assignable(CPPVisibility min_vis) const {
+  static std::set<const CPPStructType *> active;
+  TraitRecursionGuard guard(active, this);
+  if (!guard.entered()) {
+    return false;
+  }
+
   CPPInstance *assignment_operator = get_copy_assignment_operator();
   if (assignment_operator != nullptr) {
     // It has a copy assignment operator.
@@ -869,6 +922,12 @@ is_copy_assignable(CPPVisibility min_vis) const {
  */
 bool CPPStructType::
 is_move_assignable(CPPVisibility min_vis) const {
+  static std::set<const CPPStructType *> active;
+  TraitRecursionGuard guard(active, this);
+  if (!guard.entered()) {
+    return false;
+  }
+
   CPPInstance *assignment_operator = get_move_assignment_operator();
   if (assignment_operator != nullptr) {
     // It has a user-declared move assignment_operator.
@@ -897,6 +956,12 @@ is_move_assignable(CPPVisibility min_vis) const {
  */
 bool CPPStructType::
 is_destructible(CPPVisibility min_vis) const {
+  static std::set<const CPPStructType *> active;
+  TraitRecursionGuard guard(active, this);
+  if (!guard.entered()) {
+    return false;
+  }
+
   // Do we have an explicit destructor?
   CPPInstance *destructor = get_destructor();
   if (destructor != nullptr) {
